@@ -11,6 +11,8 @@ pub enum Kind {
     Done,
     Busy,
     Pend,
+    /// pends for ever and owns a guard whose destructor signals "teardown has begun" and takes 300 ms (in the model: Pend)
+    PendSlow,
     Panic,
     StopSys(i32),
     StopSelf,
@@ -27,6 +29,9 @@ pub enum Op {
     SysStop { code: i32, via: char },
     WaitRun,
     Join(usize),
+    /// wait until the teardown of arbiter k has begun (its `q` task is being dropped): the command loop has ended and its
+    /// receiver is gone, the thread is still alive; in the model: Join
+    JoinDrop(usize),
     Drop(usize),
     Await { k: usize, tid: usize },
 }
@@ -36,6 +41,7 @@ fn parse_kind(s: &str) -> Kind {
         b'c' => Kind::Done,
         b'b' => Kind::Busy,
         b'p' => Kind::Pend,
+        b'q' => Kind::PendSlow,
         b'x' => Kind::Panic,
         b'e' => Kind::StopSys(s[1..].parse().unwrap()),
         b's' => Kind::StopSelf,
@@ -54,6 +60,7 @@ pub fn parse_op(t: &str) -> Op {
         "ss" => Op::SysStop { code: p[1].parse().unwrap(), via: ch(p[2]) },
         "wr" => Op::WaitRun,
         "j" => Op::Join(p[1].parse().unwrap()),
+        "jd" => Op::JoinDrop(p[1].parse().unwrap()),
         "d" => Op::Drop(p[1].parse().unwrap()),
         "aw" => Op::Await { k: p[1].parse().unwrap(), tid: p[2].parse().unwrap() },
         _ => panic!("op {t}"),
@@ -92,6 +99,19 @@ pub struct Ev {
 pub struct Shared {
     pub log: Mutex<Vec<Ev>>,
     pub cv: Condvar,
+    /// arbiters whose teardown has begun: a `q` task (pending, with a destructor that takes 300 ms) of theirs is being dropped,
+    /// which happens after the command loop has ended and its receiver is gone, and before the thread exits
+    pub teardown: Mutex<Vec<usize>>,
+}
+
+/// owned by a `q` task: dropped with the task when the arbiter's runtime is torn down (or with the unread command)
+struct SlowGuard(Arc<Shared>, usize);
+impl Drop for SlowGuard {
+    fn drop(&mut self) {
+        self.0.teardown.lock().unwrap().push(self.1);
+        self.0.cv.notify_all();
+        thread::sleep(Duration::from_millis(300));
+    }
 }
 
 /// Arbiter::current() on a system thread did not accept a task for its own system's arbiter (set by start_system)
@@ -124,7 +144,7 @@ fn record(sh: &Shared, k: usize, tid: usize) {
 /// the body of a spawned task, after it has logged its start
 fn effect(kind: Kind, busy_us: u64) {
     match kind {
-        Kind::Done | Kind::Pend | Kind::Gate => {}
+        Kind::Done | Kind::Pend | Kind::PendSlow | Kind::Gate => {}
         Kind::Busy => thread::sleep(Duration::from_micros(busy_us)),
         Kind::Panic => panic!("task panics (scripted)"),
         Kind::StopSys(c) => System::current().stop_with_code(c),
@@ -145,16 +165,18 @@ fn send_task(
     is_fn: bool,
     busy_us: u64,
 ) -> bool {
-    if is_fn && kind != Kind::Pend {
+    if is_fn && kind != Kind::Pend && kind != Kind::PendSlow {
         spawn_fn(Box::new(move || {
             record(&sh, k, tid);
             effect(kind, busy_us);
         }))
     } else {
+        let guard = if kind == Kind::PendSlow { Some(SlowGuard(sh.clone(), k)) } else { None };
         spawn(Box::pin(async move {
+            let _guard = guard;
             record(&sh, k, tid);
             effect(kind, busy_us);
-            if kind == Kind::Pend {
+            if kind == Kind::Pend || kind == Kind::PendSlow {
                 std::future::pending::<()>().await;
             }
         }))
@@ -498,6 +520,15 @@ fn run_case(userun: bool, seed: u64, ops: &[Op]) -> String {
                     ret = side.ret_rx.recv_timeout(watchdog()).ok();
                 }
                 if ret.is_some() { 'r' } else { hung(); 'h' }
+            }
+            Op::JoinDrop(k) => {
+                if let Some(sl) = slots.get_mut(k) {
+                    sl.gate = None;
+                }
+                let g = sh.teardown.lock().unwrap();
+                let (g, res) = sh.cv.wait_timeout_while(g, watchdog(), |t| !t.contains(&k)).unwrap();
+                drop(g);
+                if res.timed_out() { hung(); 'h' } else { 'j' }
             }
             Op::Join(k) => match slots.get_mut(k) {
                 None => 'j',
